@@ -1,4 +1,5 @@
 import QeepProps.C04
+import QeepProps.C05
 import QeepProps.C06
 import QeepProps.C09
 import QeepProofs.Along
@@ -17,6 +18,21 @@ what that closure returns element by element; the doc comment says why that is `
 
 Index conventions: multi-indices are big-endian (tensor order) lists; `Valid dims i` says `i` has one in-range
 entry per dimension (`Qeep.Valid` is position-wise, so it is used for both byte orders).
+
+Main theorems (all for every rank / size, on well-formed tensors; generic in the scalar domain unless marked ℝ):
+
+* value of each rule, element by element: `rule_reshape`, `rule_reshape_family`, `rule_transpose`, `rule_sumAlong`,
+  `rule_avgAlong`, `rule_slice` (`rule_slice_zero`, `rule_slice_real`), `rule_concat`, `rule_patchX`
+  (`rule_patchX_zero`, `rule_patchX_real`), `rule_patchP`;
+* forward and backward together (the rule reads the index map of the forward operation in the other direction):
+  `slice_vjp`, `patch_vjp`, `concat_vjp` (+ `concatEdges_get`: the rule the `k`-th Concat edge carries), `along_vjp`,
+  `transpose_vjp`, `transpose_involution`, `rule_transpose_inverse`;
+* adjointness `⟨f dx, gy⟩ = ⟨dx, rule gy⟩` over ℝ (`inner` = `Σ_k a_k · b_k` over row-major positions):
+  `adjoint_reshape`, `adjoint_transpose`, `adjoint_slice`, `adjoint_sumAlong`
+  (generic lemmas `adjoint_of_perm`, `adjoint_of_embedding`, `adjoint_of_fibres`).
+
+Not proved here: adjointness (sum form) for Patch / Concat / AvgAlong — their element statements above are the
+select / embed pairs, the sum form would follow the pattern of `adjoint_slice`.
 -/
 set_option linter.unusedSimpArgs false
 set_option linter.unusedSectionVars false
@@ -1169,6 +1185,720 @@ theorem adjoint_transpose (bm : BMode) (H : Heap ℝ) (dx gy y r : Tensor ℝ) (
   · intro j hj
     have := tpos_tpos (swap2_pos hpos) j (by rw [prod_swap2, ← hP]; exact hj)
     rw [swap2_swap2] at this; exact this
+
+/-! ## Forward / backward pairs
+
+The theorems above take the shape of the upstream gradient as a hypothesis on dims. Here the same statements are tied
+to the forward call: `y` is the forward result, `gy` any well-formed tensor of `y`'s shape. -/
+
+/-- window positions and block positions correspond one to one (`shiftIdx` / `unshiftP` are mutually inverse) -/
+theorem window_of_block : ∀ {W j}, InBlock W j → inWin W (shiftIdx W j) = true ∧ unshiftP W (shiftIdx W j) = j
+  | _, _, .nil => ⟨rfl, rfl⟩
+  | _, _, .cons (f := f) (t := t) (j := j) hj hb => by
+    obtain ⟨h1, h2⟩ := window_of_block hb
+    simp only [shiftIdx, inWin, unshiftP, h1, h2, Bool.and_true, decide_eq_true_eq]
+    exact ⟨by omega, by congr 1; omega⟩
+
+theorem block_of_window : ∀ {W ds i}, Fits W ds → Valid ds i → inWin W i = true →
+    InBlock W (unshiftP W i) ∧ shiftIdx W (unshiftP W i) = i
+  | _, _, _, .nil, .nil, _ => ⟨.nil, rfl⟩
+  | _, _, _, .cons (f := f) (t := t) htd hfit, .cons (s := j) hj hv, hin => by
+    simp only [inWin, Bool.and_eq_true, decide_eq_true_eq] at hin
+    obtain ⟨h1, h2⟩ := block_of_window hfit hv hin.2
+    simp only [unshiftP, shiftIdx, h2]
+    exact ⟨.cons (by omega) h1, by congr 1; omega⟩
+
+section pairs
+variable [Scalar α]
+
+/-- **Slice, forward and backward together.** With `W` the complete window of the index: forward `y[j] = x[j + From]`
+    on the block, backward `r[i] = gy[i - From]` on the window and `0 · x[i]` elsewhere — select / embed-into-zeros, a
+    pair of mutually adjoint maps (`window_of_block`, `block_of_window`: the two index maps are mutually inverse). -/
+theorem slice_vjp (bm : BMode) (H : Heap α) (x : Nat) (index : List IRange) (y gy : Tensor α) (wx : (H.val x).WF)
+    (hf : vSlice (H.val x) index = .ok y) (wg : gy.WF) (hd : gy.dims = y.dims) :
+    (∀ j, InBlock (completeIndex (natRanges index) (H.val x).dims) j →
+        y.at? j = (H.val x).at? (shiftIdx (completeIndex (natRanges index) (H.val x).dims) j)) ∧
+    ∃ r, evalRule bm H gy (.sliceX x index) = .ok r ∧ r.dims = (H.val x).dims ∧ r.WF ∧
+      ∀ i, Valid (H.val x).dims i →
+        r.at? i = if inWin (completeIndex (natRanges index) (H.val x).dims) i
+          then gy.at? (unshiftP (completeIndex (natRanges index) (H.val x).dims) i)
+          else ((H.val x).at? i).map (fun a => Scalar.mul Scalar.zero a) := by
+  by_cases hv : validSliceIndex index (H.val x).dims = true
+  · obtain ⟨data, e, _, hget⟩ := C06.slice_get (H.val x) wx (natRanges index) (C09.rangesOK_of_valid _ _ hv)
+    have hy : y = ⟨sliceDims (completeIndex (natRanges index) (H.val x).dims), data⟩ := by
+      simp only [vSlice, hv, if_true, e, Out.ofOpt] at hf
+      injection hf with hf; exact hf.symm
+    refine ⟨?_, rule_slice bm H gy x index wx hv wg (by rw [hd, hy])⟩
+    intro j hj
+    rw [hy]; exact hget j hj
+  · simp only [vSlice, hv] at hf; cases hf
+
+/-- **Patch, forward and backward together.** With `W` the complete index of the write (`From` = 0 where omitted):
+    forward `y[i] = p[i - From]` inside the block, `x[i]` outside; backward towards `x`: `0 · p[·]` inside, `gy[i]`
+    outside (the projection that forgets the block); backward towards `p`: `gy[j + From]` (selection of the block, adjoint
+    of embedding `p` there). -/
+theorem patch_vjp (bm : BMode) (H : Heap α) (x p : Nat) (index : List IRange) (y gy : Tensor α) (wx : (H.val x).WF)
+    (wp : (H.val p).WF) (hf : vPatch (H.val x) index (H.val p) = .ok y) (wg : gy.WF) (hd : gy.dims = y.dims) :
+    (∀ i, Valid (H.val x).dims i →
+        y.at? i = if insideP (completeIndex (natRanges index) (H.val p).dims) (H.val p).dims i
+          then (H.val p).at? (unshiftP (completeIndex (natRanges index) (H.val p).dims) i) else (H.val x).at? i) ∧
+    (∃ r, evalRule bm H gy (.patchX p index) = .ok r ∧ r.dims = (H.val x).dims ∧ r.WF ∧
+      ∀ i, Valid (H.val x).dims i →
+        r.at? i = if insideP (completeIndex (natRanges index) (H.val p).dims) (H.val p).dims i
+          then ((H.val p).at? (unshiftP (completeIndex (natRanges index) (H.val p).dims) i)).map
+            (fun a => Scalar.mul Scalar.zero a)
+          else gy.at? i) ∧
+    (∃ r, evalRule bm H gy (.patchP p index) = .ok r ∧ r.dims = (H.val p).dims ∧ r.WF ∧
+      ∀ j, Valid (H.val p).dims j →
+        r.at? j = gy.at? (shiftIdx (completeIndex (natRanges index) (H.val p).dims) j)) := by
+  by_cases hv : validPatchIndex index (H.val p).dims (H.val x).dims = true
+  · obtain ⟨data, e, _, hget⟩ := C06.patch_get (H.val x) (H.val p) wx wp (natRanges index)
+      (C09.patchOK_of_valid _ _ _ hv)
+    have hy : y = ⟨(H.val x).dims, data⟩ := by
+      simp only [vPatch, hv, if_true, e, Out.ofOpt] at hf
+      injection hf with hf; exact hf.symm
+    have hgd : gy.dims = (H.val x).dims := by rw [hd, hy]
+    refine ⟨?_, ?_, ?_⟩
+    · intro i hi; rw [hy]; exact hget i hi
+    · have := rule_patchX bm H gy p index wp wg (by rw [hgd]; exact hv)
+      rw [hgd] at this; exact this
+    · exact rule_patchP bm H gy p index wp wg (by rw [hgd]; exact hv)
+  · simp only [vPatch, hv] at hf; cases hf
+
+/-- **SumAlong / AvgAlong / MeanAlong tied to the forward call**: `y` the forward result of any `…Along(dim)` reduction,
+    `gy` of `y`'s shape; the rule attached by `SumAlong` replicates `gy` along `dim`, the one attached by
+    `AvgAlong` / `MeanAlong` replicates and scales by `1/n`. -/
+theorem along_vjp (bm : BMode) (H : Heap α) (rd : Reducer) (x : Nat) (dim : Int) (y gy : Tensor α) (wx : (H.val x).WF)
+    (hf : vAlong rd (H.val x) dim = .ok y) (wg : gy.WF) (hd : gy.dims = y.dims) :
+    (∃ r, evalRule bm H gy (.sumAlongX x dim.toNat) = .ok r ∧ r.dims = (H.val x).dims ∧ r.WF ∧
+      ∀ i, Valid (H.val x).dims i → r.at? i = gy.at? (i.eraseIdx dim.toNat)) ∧
+    (∃ r, evalRule bm H gy (.avgAlongX x dim.toNat) = .ok r ∧ r.dims = (H.val x).dims ∧ r.WF ∧
+      ∀ i, Valid (H.val x).dims i →
+        r.at? i = (gy.at? (i.eraseIdx dim.toNat)).map
+          (fun g => Scalar.mul (Scalar.div Scalar.one (Scalar.ofNat ((H.val x).dims.getD dim.toNat 0))) g)) := by
+  by_cases hv : validDimLt dim (H.val x).dims = true
+  · obtain ⟨data, e⟩ := (C09.vAlong_total rd (H.val x) wx dim).1 hv
+    rw [e] at hf
+    injection hf with hf
+    have hlt : dim.toNat < (H.val x).dims.length := by
+      simp only [validDimLt, Bool.and_eq_true, decide_eq_true_eq] at hv; omega
+    have hgd : gy.dims = squeezeDims dim.toNat (H.val x).dims := by rw [hd, ← hf]
+    exact ⟨rule_sumAlong bm H gy x dim.toNat wx hlt wg hgd, rule_avgAlong bm H gy x dim.toNat wx hlt wg hgd⟩
+  · have hv' : validDimLt dim (H.val x).dims = false := by simpa using hv
+    rw [(C09.vAlong_total rd (H.val x) wx dim).2 hv'] at hf; cases hf
+
+/-- **Transpose tied to the forward call**: `y = x.Transpose()`, `gy` of `y`'s shape: the rule returns a tensor of `x`'s
+    shape with `r[i] = gy[i with the last two coordinates swapped]`, while `y[j] = x[j with the last two coordinates
+    swapped]`. -/
+theorem transpose_vjp (bm : BMode) (H : Heap α) (x y gy : Tensor α) (wx : x.WF) (hf : vTranspose x = .ok y)
+    (wg : gy.WF) (hd : gy.dims = y.dims) :
+    (∀ j, Valid y.dims j → y.at? j = x.at? (swapLast2 j)) ∧
+    ∃ r, evalRule bm H gy .transposeX = .ok r ∧ r.dims = x.dims ∧ r.WF ∧
+      ∀ i, Valid x.dims i → r.at? i = gy.at? (swapLast2 i) := by
+  by_cases hr : 2 ≤ x.dims.length
+  · obtain ⟨y', e, hyd, wy, hyget⟩ := rule_transpose bm H x wx hr
+    have : y' = y := by
+      simp only [evalRule] at e; rw [hf] at e; injection e with e; exact e.symm
+    subst this
+    have hr' : 2 ≤ gy.dims.length := by
+      rw [hd, hyd]; simp [swapLast2, swap2_length]; exact hr
+    obtain ⟨r, e', hrd, wr, hrget⟩ := rule_transpose bm H gy wg hr'
+    have hrx : r.dims = x.dims := by rw [hrd, hd, hyd, swapLast2_swapLast2]
+    refine ⟨hyget, r, e', hrx, wr, ?_⟩
+    intro i hi
+    exact hrget i (by rw [hrx]; exact hi)
+  · have : ¬ (x.dims.length ≥ 2) := hr
+    simp [vTranspose, validTranspose, this] at hf
+
+end pairs
+
+/-! ## Concat: the rule carried by the `k`-th edge, and forward / backward together -/
+
+theorem locate_add : ∀ (lens : List Nat) (s j : Nat) (hs : s < lens.length), j < lens[s] →
+    locate lens ((lens.take s).sum + j) = some (s, j)
+  | [], _, _, hs, _ => by simp at hs
+  | l :: ls, 0, j, _, hj => by
+    have hj' : j < l := by simpa using hj
+    simp [locate, hj']
+  | l :: ls, s + 1, j, hs, hj => by
+    have hs' : s < ls.length := by simpa using hs
+    have hj' : j < ls[s] := by simpa using hj
+    have ih := locate_add ls s j hs' hj'
+    have e0 : ((l :: ls).take (s + 1)).sum + j = l + ((ls.take s).sum + j) := by
+      simp only [List.take_succ_cons, List.sum_cons, Nat.add_assoc]
+    rw [e0]
+    simp only [locate]
+    have hge : ¬ (l + ((ls.take s).sum + j) < l) := by omega
+    rw [if_neg hge]
+    have e : l + ((ls.take s).sum + j) - l = (ls.take s).sum + j := by omega
+    rw [e, ih]; rfl
+
+/-- adding the operand's base along `dim` is the inverse of the forward routing (`C06.concat_get`) -/
+theorem route_addAt : ∀ (dim : Nat) (lens : List Nat) (s : Nat) (js : List Nat) (hs : s < lens.length), dim < js.length →
+    js.getD dim 0 < lens[s] → route dim lens (addAt dim (lens.take s).sum js) = some (s, js)
+  | _, _, _, [], _, h, _ => by simp at h
+  | 0, lens, s, j :: js, hs, _, hj => by
+    have hj' : j < lens[s] := by simpa using hj
+    simp only [addAt, route]
+    rw [Nat.add_comm, locate_add lens s j hs hj']; rfl
+  | dim + 1, lens, s, j :: js, hs, h, hj => by
+    have ih := route_addAt dim lens s js hs (by simpa using h) (by simpa using hj)
+    simp only [addAt, route, ih]; rfl
+
+theorem valid_addAt : ∀ (dim b len tot : Nat) {ds j : List Nat}, dim < ds.length → Valid (ds.set dim len) j →
+    b + len ≤ tot → Valid (ds.set dim tot) (addAt dim b j)
+  | _, _, _, _, [], _, h, _, _ => by simp at h
+  | 0, b, len, tot, d :: ds, _, _, hv, hb => by
+    simp only [List.set_cons_zero] at hv ⊢
+    cases hv with
+    | cons hj hv' => exact .cons (by omega) hv'
+  | dim + 1, b, len, tot, d :: ds, _, h, hv, hb => by
+    simp only [List.set_cons_succ] at hv ⊢
+    cases hv with
+    | cons hj hv' => exact .cons hj (valid_addAt dim b len tot (by simpa using h) hv' hb)
+
+theorem valid_getD_lt : ∀ (dim : Nat) {ds j : List Nat}, Valid ds j → dim < ds.length → j.getD dim 0 < ds.getD dim 0
+  | _, _, _, .nil, h => by simp at h
+  | 0, _, _, .cons hs _, _ => by simpa using hs
+  | dim + 1, _, _, .cons _ hv, h => by
+    have := valid_getD_lt dim hv (by simpa using h)
+    simpa using this
+
+theorem take_sum_add_le : ∀ (lens : List Nat) (s : Nat) (hs : s < lens.length), (lens.take s).sum + lens[s] ≤ lens.sum
+  | [], _, hs => by simp at hs
+  | l :: ls, 0, _ => by simp
+  | l :: ls, s + 1, hs => by
+    have := take_sum_add_le ls s (by simpa using hs)
+    simp only [List.take_succ_cons, List.sum_cons, List.getElem_cons_succ]
+    omega
+
+section concatEdges
+variable [Scalar α]
+
+/-- the `k`-th back edge `gradtrack.Concat` builds: target `xs[k]`, rule `Slice` with `From` = the sum of the sizes
+    along `dim` of the operands before it and `To - From` = its own size -/
+theorem concatEdges_get (H : Heap α) (dim : Nat) : ∀ (xs : List Nat) (b k : Nat) (hk : k < xs.length),
+    (concatEdges H dim xs b)[k]? = some ⟨xs[k], .concatI (concatIndex (H.val xs[k]).dims.length dim
+        (b + ((xs.take k).map (fun x => (H.val x).dims.getD dim 0)).sum) ((H.val xs[k]).dims.getD dim 0))⟩
+  | [], _, _, hk => by simp at hk
+  | x :: xs, b, 0, _ => by simp [concatEdges]
+  | x :: xs, b, k + 1, hk => by
+    have ih := concatEdges_get H dim xs (b + (H.val x).dims.getD dim 0) k (by simpa using hk)
+    simp only [concatEdges, List.getElem?_cons_succ, ih, List.take_succ_cons, List.map_cons, List.sum_cons,
+      List.getElem_cons_succ, Nat.add_assoc]
+
+/-- **Concat, forward and backward together** — for every operand count ≥ 1, every rank ≥ 1, every `dim`: the result `y`
+    holds operand `s` as one block, `y[j with base_s added at dim] = x_s[j]` (`base_s` = total size along `dim` of the
+    operands before `x_s`), and the closure of the `s`-th edge (`concatEdges_get`) applied to an upstream gradient of `y`'s
+    shape returns a well-formed tensor of `x_s`'s shape with `r[j] = gy[j with base_s added at dim]`: embed the block /
+    select the block, a pair of mutually adjoint maps. -/
+theorem concat_vjp (bm : BMode) (H : Heap α) (t0 : Tensor α) (ts : List (Tensor α)) (dim : Nat)
+    (hdim : dim < t0.dims.length) (hwf : ∀ t ∈ t0 :: ts, t.WF)
+    (hagree : ∀ t ∈ t0 :: ts, t.dims.length = t0.dims.length ∧ ∀ j, j ≠ dim → t.dims[j]? = t0.dims[j]?) :
+    ∃ y, concatRaw (t0 :: ts) dim = some y ∧
+      y.dims = t0.dims.set dim ((t0 :: ts).map (fun t => t.dims.getD dim 0)).sum ∧
+      ∀ (s : Nat) (hs : s < (t0 :: ts).length),
+        (∀ j, Valid ((t0 :: ts)[s]).dims j →
+          y.at? (addAt dim ((((t0 :: ts).map (fun t => t.dims.getD dim 0)).take s).sum) j) = ((t0 :: ts)[s]).at? j) ∧
+        ∀ gy : Tensor α, gy.WF → gy.dims = y.dims →
+          ∃ r, evalRule bm H gy (.concatI (concatIndex ((t0 :: ts)[s]).dims.length dim
+              ((((t0 :: ts).map (fun t => t.dims.getD dim 0)).take s).sum) (((t0 :: ts)[s]).dims.getD dim 0))) = .ok r ∧
+            r.dims = ((t0 :: ts)[s]).dims ∧ r.WF ∧
+            ∀ j, Valid ((t0 :: ts)[s]).dims j →
+              r.at? j = gy.at? (addAt dim ((((t0 :: ts).map (fun t => t.dims.getD dim 0)).take s).sum) j) := by
+  obtain ⟨data, e, hlen, hroute⟩ := C06.concat_get t0 ts dim hdim hwf hagree
+  generalize hlens : (t0 :: ts).map (fun t => t.dims.getD dim 0) = lens at e hlen hroute ⊢
+  refine ⟨⟨t0.dims.set dim lens.sum, data⟩, e, rfl, ?_⟩
+  intro s hs
+  generalize hxs : (t0 :: ts)[s] = xs
+  have hmem : xs ∈ t0 :: ts := by rw [← hxs]; exact List.getElem_mem _
+  have wxs := hwf xs hmem
+  obtain ⟨hl, hag⟩ := hagree xs hmem
+  have hdx : dim < xs.dims.length := by omega
+  have hs' : s < lens.length := by rw [← hlens]; simpa using hs
+  have hlen_s : lens[s] = xs.dims.getD dim 0 := by
+    subst hlens; simp only [List.getElem_map, hxs]
+  have hxd : xs.dims = t0.dims.set dim (xs.dims.getD dim 0) := by
+    have h1 := eq_rdimsOf dim t0.dims xs.dims hl hdim hag
+    rw [rdimsOf_set dim t0.dims _ hdim] at h1
+    exact h1
+  have hpos : 0 < xs.dims.getD dim 0 := by
+    have : xs.dims.getD dim 0 = xs.dims[dim] := by simp [List.getD, List.getElem?_eq_getElem hdx]
+    rw [this]; exact wxs.2 _ (List.getElem_mem _)
+  have hle : (lens.take s).sum + xs.dims.getD dim 0 ≤ lens.sum := by
+    rw [← hlen_s]; exact take_sum_add_le lens s hs'
+  refine ⟨?_, ?_⟩
+  · intro j hj
+    have hj' : Valid (t0.dims.set dim (xs.dims.getD dim 0)) j := by rw [← hxd]; exact hj
+    have hv := valid_addAt dim (lens.take s).sum _ lens.sum hdim hj' hle
+    obtain ⟨s', idx', t, r1, r2, r3⟩ := hroute _ hv
+    have hjl : dim < j.length := by rw [hj.length_eq]; exact hdx
+    have hjd : j.getD dim 0 < lens[s] := by rw [hlen_s]; exact valid_getD_lt dim hj hdx
+    rw [route_addAt dim lens s j hs' hjl hjd] at r1
+    injection r1 with r1
+    injection r1 with r1a r1b
+    subst r1a r1b
+    rw [List.getElem?_eq_getElem hs, hxs] at r2
+    injection r2 with r2
+    rw [r3, r2]
+  · intro gy wg hgd
+    have hgd' : gy.dims = t0.dims.set dim lens.sum := hgd
+    have hdg : dim < gy.dims.length := by rw [hgd']; simpa using hdim
+    have hgl : gy.dims.length = xs.dims.length := by rw [hgd']; simp [hl]
+    have hb : (lens.take s).sum + xs.dims.getD dim 0 ≤ gy.dims.getD dim 0 := by
+      have : gy.dims.getD dim 0 = lens.sum := by
+        rw [hgd']; simp [List.getD, hdim]
+      rw [this]; exact hle
+    obtain ⟨r, e', hrd, wr, hrget⟩ := rule_concat bm H gy dim (lens.take s).sum (xs.dims.getD dim 0) wg hpos hdg hb
+    have hrx : gy.dims.set dim (xs.dims.getD dim 0) = xs.dims := by
+      rw [hgd', List.set_set]; exact hxd.symm
+    rw [hgl] at e'
+    rw [hrx] at hrd hrget
+    exact ⟨r, e', hrd, wr, hrget⟩
+
+end concatEdges
+
+/-! ## Real-number corollaries and the adjointness of Slice -/
+
+theorem real_zero_mul (a : ℝ) : Scalar.mul (Scalar.zero : ℝ) a = Scalar.zero := by
+  simp [RealScalar.mul_eq, RealScalar.zero_eq]
+
+/-- Slice rule over ℝ: the upstream block embedded into zeros -/
+theorem rule_slice_real (bm : BMode) (H : Heap ℝ) (gy : Tensor ℝ) (x : Nat) (index : List IRange) (wx : (H.val x).WF)
+    (hv : validSliceIndex index (H.val x).dims = true) (wg : gy.WF)
+    (hd : gy.dims = sliceDims (completeIndex (natRanges index) (H.val x).dims)) :
+    ∃ r, evalRule bm H gy (.sliceX x index) = .ok r ∧ r.dims = (H.val x).dims ∧ r.WF ∧
+      ∀ i, Valid (H.val x).dims i →
+        r.at? i = if inWin (completeIndex (natRanges index) (H.val x).dims) i
+          then gy.at? (unshiftP (completeIndex (natRanges index) (H.val x).dims) i) else some 0 := by
+  have := rule_slice_zero real_zero_mul bm H gy x index wx hv wg hd
+  simpa [RealScalar.zero_eq] using this
+
+/-- Patch rule towards the target over ℝ: the upstream gradient with the written block zeroed -/
+theorem rule_patchX_real (bm : BMode) (H : Heap ℝ) (gy : Tensor ℝ) (p : Nat) (index : List IRange) (wp : (H.val p).WF)
+    (wg : gy.WF) (hv : validPatchIndex index (H.val p).dims gy.dims = true) :
+    ∃ r, evalRule bm H gy (.patchX p index) = .ok r ∧ r.dims = gy.dims ∧ r.WF ∧
+      ∀ i, Valid gy.dims i →
+        r.at? i = if insideP (completeIndex (natRanges index) (H.val p).dims) (H.val p).dims i
+          then some 0 else gy.at? i := by
+  have := rule_patchX_zero real_zero_mul bm H gy p index wp wg hv
+  simpa [RealScalar.zero_eq] using this
+
+/-- AvgAlong rule over ℝ: `gy[i with coordinate dim removed] / n` -/
+theorem rule_avgAlong_real (bm : BMode) (H : Heap ℝ) (gy : Tensor ℝ) (x dim : Nat) (wx : (H.val x).WF)
+    (hdim : dim < (H.val x).dims.length) (wg : gy.WF) (hd : gy.dims = squeezeDims dim (H.val x).dims) :
+    ∃ r, evalRule bm H gy (.avgAlongX x dim) = .ok r ∧ r.dims = (H.val x).dims ∧ r.WF ∧
+      ∀ i, Valid (H.val x).dims i →
+        r.at? i = (gy.at? (i.eraseIdx dim)).map (fun g => 1 / ((H.val x).dims.getD dim 0 : ℝ) * g) := by
+  have := rule_avgAlong bm H gy x dim wx hdim wg hd
+  simpa [RealScalar.mul_eq, RealScalar.div_eq, RealScalar.one_eq, RealScalar.ofNat_eq] using this
+
+/-- big-endian multi-index of row-major position `k` -/
+def idxOf (D : List Nat) (k : Nat) : List Nat := (iterN (incr D.reverse) k (zerosLike D.reverse)).reverse
+/-- row-major position of a big-endian multi-index -/
+def posOf (D i : List Nat) : Nat := val D.reverse i.reverse
+
+theorem pos_reverse {D : List Nat} (h : ∀ d ∈ D, 0 < d) : ∀ d ∈ D.reverse, 0 < d :=
+  fun d hd => h d (by simpa using hd)
+
+theorem valid_idxOf {D : List Nat} (h : ∀ d ∈ D, 0 < d) (k : Nat) : Valid D (idxOf D k) := by
+  have := valid_reverse (valid_iter (pos_reverse h) k)
+  simpa [idxOf] using this
+
+theorem posOf_lt {D i : List Nat} (hv : Valid D i) : posOf D i < prod D := by
+  have := val_lt (valid_reverse hv)
+  rwa [prod_reverse] at this
+
+theorem posOf_idxOf {D : List Nat} (h : ∀ d ∈ D, 0 < d) {k : Nat} (hk : k < prod D) : posOf D (idxOf D k) = k := by
+  unfold posOf idxOf
+  rw [List.reverse_reverse, val_iter (pos_reverse h) k, prod_reverse, Nat.mod_eq_of_lt hk]
+
+theorem idxOf_posOf {D i : List Nat} (h : ∀ d ∈ D, 0 < d) (hv : Valid D i) : idxOf D (posOf D i) = i := by
+  unfold posOf idxOf
+  rw [iter_val (pos_reverse h) (valid_reverse hv), List.reverse_reverse]
+
+theorem posOf_inj {D i j : List Nat} (hi : Valid D i) (hj : Valid D j) (h : posOf D i = posOf D j) : i = j := by
+  have := val_inj (valid_reverse hi) (valid_reverse hj) h
+  simpa using congrArg List.reverse this
+
+theorem at?_idxOf (t : Tensor α) (hwf : t.WF) {k : Nat} (hk : k < prod t.dims) : t.at? (idxOf t.dims k) = t.data[k]? := by
+  rw [at?_valid t (valid_idxOf hwf.2 k)]
+  have := posOf_idxOf hwf.2 hk
+  unfold posOf at this
+  rw [this]
+
+theorem inBlock_of_valid : ∀ {W j}, Valid (sliceDims W) j → InBlock W j
+  | [], _, h => by cases h; exact .nil
+  | (f, t) :: W, _, h => by
+    simp only [sliceDims, List.map_cons] at h
+    cases h with
+    | cons hj hv => exact .cons hj (inBlock_of_valid hv)
+
+theorem valid_of_inBlock : ∀ {W j}, InBlock W j → Valid (sliceDims W) j
+  | _, _, .nil => .nil
+  | _, _, .cons hj hb => by
+    simp only [sliceDims, List.map_cons]
+    exact .cons hj (valid_of_inBlock hb)
+
+theorem valid_shiftIdx : ∀ {W ds j}, Fits W ds → InBlock W j → Valid ds (shiftIdx W j)
+  | _, _, _, .nil, .nil => .nil
+  | _, _, _, .cons htd hfit, .cons hj hb => by
+    simp only [shiftIdx]
+    exact .cons (by omega) (valid_shiftIdx hfit hb)
+
+/-- selecting positions `σ k` (`σ` injective) is adjoint to writing `g k` at position `σ k` and `0` elsewhere -/
+theorem adjoint_of_embedding (m n : ℕ) (σ : ℕ → ℕ) (hσ : ∀ k, k < m → σ k < n)
+    (hinj : ∀ k k', k < m → k' < m → σ k = σ k' → k = k') (x g r : ℕ → ℝ) (hin : ∀ k, k < m → r (σ k) = g k)
+    (hout : ∀ j, j < n → (∀ k, k < m → σ k ≠ j) → r j = 0) :
+    ∑ k ∈ Finset.range m, x (σ k) * g k = ∑ j ∈ Finset.range n, x j * r j := by
+  have hsub : (Finset.range m).image σ ⊆ Finset.range n := by
+    intro j hj
+    obtain ⟨k, hk, rfl⟩ := Finset.mem_image.mp hj
+    exact Finset.mem_range.mpr (hσ k (Finset.mem_range.mp hk))
+  rw [← Finset.sum_subset hsub (f := fun j => x j * r j)]
+  · rw [Finset.sum_image]
+    · apply Finset.sum_congr rfl
+      intro k hk
+      rw [hin k (Finset.mem_range.mp hk)]
+    · intro k hk k' hk' h
+      exact hinj k k' (Finset.mem_range.mp hk) (Finset.mem_range.mp hk') h
+  · intro j hj hnot
+    have : r j = 0 := by
+      apply hout j (Finset.mem_range.mp hj)
+      intro k hk h
+      exact hnot (Finset.mem_image.mpr ⟨k, Finset.mem_range.mpr hk, h⟩)
+    rw [this, mul_zero]
+
+/-- **Slice is adjoint to its rule** (over ℝ): for a direction `dx` of `x`'s shape and an upstream gradient `gy` of the
+    block's shape, `⟨dx.Slice(index), gy⟩ = ⟨dx, toZeros(x).Patch(index, gy)⟩`, i.e. `⟨f dx, gy⟩ = ⟨dx, rule gy⟩`: the
+    closure of `gradtrack.Slice` is the transpose of the linear forward map, hence its vector-Jacobian product. Every
+    rank, every accepted index (explicit, omitted and `{0,0}` ranges). -/
+theorem adjoint_slice (bm : BMode) (H : Heap ℝ) (x : Nat) (index : List IRange) (dx y gy r : Tensor ℝ)
+    (wd : dx.WF) (hdx : dx.dims = (H.val x).dims) (wx : (H.val x).WF) (hf : vSlice dx index = .ok y) (wg : gy.WF)
+    (hd : gy.dims = y.dims) (hr : evalRule bm H gy (.sliceX x index) = .ok r) : inner y gy = inner dx r := by
+  by_cases hv : validSliceIndex index dx.dims = true
+  · have hrok := C09.rangesOK_of_valid index dx.dims hv
+    have hfit := C06.fits_complete hrok
+    obtain ⟨data, e, hlen, hget⟩ := C06.slice_get dx wd (natRanges index) hrok
+    have hy : y = ⟨sliceDims (completeIndex (natRanges index) dx.dims), data⟩ := by
+      simp only [vSlice, hv, if_true, e, Out.ofOpt] at hf
+      injection hf with hf; exact hf.symm
+    generalize hW : completeIndex (natRanges index) dx.dims = W at hfit hget hy hlen
+    have hyd : y.dims = sliceDims W := by rw [hy]
+    have wy : y.WF := by
+      rw [hy]; refine ⟨hlen, ?_⟩
+      rw [← hyd, ← hd]; exact wg.2
+    have hgd : gy.dims = sliceDims W := by rw [hd, hyd]
+    obtain ⟨r', e', hrd, wr, hrget⟩ := rule_slice_real bm H gy x index wx (by rw [← hdx]; exact hv) wg
+      (by rw [← hdx, hW]; exact hgd)
+    rw [hr] at e'
+    injection e' with e'
+    subst e'
+    rw [← hdx, hW] at hrget
+    have hrd' : r.dims = dx.dims := by rw [hrd, hdx]
+    have hposB : ∀ d ∈ sliceDims W, 0 < d := by rw [← hgd]; exact wg.2
+    -- the position map
+    let σ : ℕ → ℕ := fun k => posOf dx.dims (shiftIdx W (idxOf (sliceDims W) k))
+    have hblk : ∀ k, InBlock W (idxOf (sliceDims W) k) := fun k => inBlock_of_valid (valid_idxOf hposB k)
+    have hvs : ∀ k, Valid dx.dims (shiftIdx W (idxOf (sliceDims W) k)) := fun k => valid_shiftIdx hfit (hblk k)
+    have hY : ∀ k, k < prod (sliceDims W) → y.data[k]? = dx.data[σ k]? := by
+      intro k hk
+      have h1 := at?_idxOf y wy (by rw [hyd]; exact hk)
+      rw [hyd] at h1
+      rw [← h1, hy, hget _ (hblk k), at?_valid dx (hvs k)]
+      rfl
+    have hG : ∀ k, k < prod (sliceDims W) → gy.at? (idxOf (sliceDims W) k) = gy.data[k]? := by
+      intro k hk
+      have := at?_idxOf gy wg (by rw [hgd]; exact hk)
+      rw [hgd] at this; exact this
+    have hR : ∀ j, j < prod dx.dims → r.data[j]? = if inWin W (idxOf dx.dims j) then gy.at? (unshiftP W (idxOf dx.dims j)) else some 0 := by
+      intro j hj
+      have h1 := at?_idxOf r wr (by rw [hrd']; exact hj)
+      rw [hrd'] at h1
+      rw [← h1]
+      exact hrget _ (valid_idxOf wd.2 j)
+    unfold inner
+    rw [hyd]
+    have e1 : ∀ k ∈ Finset.range (prod (sliceDims W)),
+        (y.data[k]?).getD 0 * (gy.data[k]?).getD 0
+          = (fun j => (dx.data[j]?).getD 0) (σ k) * (fun k => (gy.data[k]?).getD 0) k := by
+      intro k hk
+      simp only [hY k (Finset.mem_range.mp hk)]
+    rw [Finset.sum_congr rfl e1]
+    refine adjoint_of_embedding (prod (sliceDims W)) (prod dx.dims) σ ?_ ?_ (fun j => (dx.data[j]?).getD 0)
+      (fun k => (gy.data[k]?).getD 0) (fun j => (r.data[j]?).getD 0) ?_ ?_
+    · intro k _; exact posOf_lt (hvs k)
+    · intro k k' hk hk' h
+      have h1 := posOf_inj (hvs k) (hvs k') h
+      have h2 := congrArg (unshiftP W) h1
+      rw [(window_of_block (hblk k)).2, (window_of_block (hblk k')).2] at h2
+      have h3 := congrArg (posOf (sliceDims W)) h2
+      rwa [posOf_idxOf hposB hk, posOf_idxOf hposB hk'] at h3
+    · intro k hk
+      show (r.data[σ k]?).getD 0 = (gy.data[k]?).getD 0
+      rw [hR (σ k) (posOf_lt (hvs k)), idxOf_posOf wd.2 (hvs k), (window_of_block (hblk k)).1, if_pos rfl,
+        (window_of_block (hblk k)).2, hG k hk]
+    · intro j hj hne
+      show (r.data[j]?).getD 0 = 0
+      rw [hR j hj]
+      by_cases hin : inWin W (idxOf dx.dims j) = true
+      · exfalso
+        obtain ⟨hb, hs⟩ := block_of_window hfit (valid_idxOf wd.2 j) hin
+        have hvb := valid_of_inBlock hb
+        apply hne (posOf (sliceDims W) (unshiftP W (idxOf dx.dims j))) (posOf_lt hvb)
+        show posOf dx.dims (shiftIdx W (idxOf (sliceDims W) (posOf (sliceDims W) (unshiftP W (idxOf dx.dims j))))) = j
+        rw [idxOf_posOf hposB hvb, hs, posOf_idxOf wd.2 hj]
+      · rw [if_neg hin]; rfl
+  · simp only [vSlice, hv] at hf; cases hf
+
+/-! ## Adjointness of SumAlong over ℝ: summation along `dim` ⊣ replication along `dim` -/
+
+theorem insLE_eq : ∀ (k v : Nat) (l : List Nat), k ≤ l.length → insLE k v l = l.take k ++ v :: l.drop k
+  | 0, v, l, _ => by simp [insLE]
+  | k + 1, v, [], h => by simp at h
+  | k + 1, v, x :: l, h => by simp [insLE, insLE_eq k v l (by simpa using h)]
+
+/-- inserting at little-endian position `kk` of the reversed index = inserting at big-endian position `dim` -/
+theorem insLE_reverse (u : List Nat) (dim kk v : Nat) (h : kk + dim = u.length) :
+    (insLE kk v u.reverse).reverse = insLE dim v u := by
+  rw [insLE_eq kk v u.reverse (by simp; omega), insLE_eq dim v u (by omega)]
+  simp only [List.reverse_append, List.reverse_cons, List.append_assoc, List.singleton_append]
+  have e1 : (u.reverse.drop kk).reverse = u.take dim := by
+    rw [List.drop_reverse]; simp; omega
+  have e2 : (u.reverse.take kk).reverse = u.drop dim := by
+    rw [List.take_reverse]; simp; omega
+  rw [e1, e2]
+
+theorem eraseIdx_insLE : ∀ (dim k : Nat) (u : List Nat), dim ≤ u.length → (insLE dim k u).eraseIdx dim = u
+  | 0, k, u, _ => by simp [insLE]
+  | dim + 1, k, [], h => by simp at h
+  | dim + 1, k, x :: u, h => by simp [insLE, eraseIdx_insLE dim k u (by simpa using h)]
+
+theorem getD_insLE : ∀ (dim k : Nat) (u : List Nat), dim ≤ u.length → (insLE dim k u).getD dim 0 = k
+  | 0, k, u, _ => by simp [insLE]
+  | dim + 1, k, [], h => by simp at h
+  | dim + 1, k, x :: u, h => by
+    have := getD_insLE dim k u (by simpa using h)
+    simpa [insLE] using this
+
+theorem insLE_eraseIdx : ∀ (dim : Nat) (i : List Nat), dim < i.length → insLE dim (i.getD dim 0) (i.eraseIdx dim) = i
+  | _, [], h => by simp at h
+  | 0, x :: i, _ => by simp [insLE]
+  | dim + 1, x :: i, h => by
+    have := insLE_eraseIdx dim i (by simpa using h)
+    simp only [List.getD_cons_succ, List.eraseIdx_cons_succ, insLE, this]
+
+theorem set_insLE : ∀ (dim k : Nat) (u : List Nat), dim ≤ u.length → (insLE dim 0 u).set dim k = insLE dim k u
+  | 0, k, u, _ => by simp [insLE]
+  | dim + 1, k, [], h => by simp at h
+  | dim + 1, k, x :: u, h => by simp [insLE, set_insLE dim k u (by simpa using h)]
+
+theorem squeezeDims_succ (dim d : Nat) (ds : List Nat) : squeezeDims (dim + 1) (d :: ds) = d :: squeezeDims dim ds := by
+  simp [squeezeDims]
+
+theorem valid_insLE_be : ∀ (dim k : Nat) {A u : List Nat}, dim < A.length → Valid (squeezeDims dim A) u →
+    k < A.getD dim 0 → Valid A (insLE dim k u)
+  | _, _, [], _, h, _, _ => by simp at h
+  | 0, k, d :: ds, u, _, hv, hk => by
+    have hv' : Valid ds u := by simpa [squeezeDims] using hv
+    simp only [insLE]
+    exact .cons (by simpa using hk) hv'
+  | dim + 1, k, d :: ds, u, h, hv, hk => by
+    rw [squeezeDims_succ] at hv
+    cases hv with
+    | cons hx hv' =>
+      simp only [insLE]
+      exact .cons hx (valid_insLE_be dim k (by simpa using h) hv' (by simpa using hk))
+
+theorem valid_eraseIdx : ∀ (dim : Nat) {A i : List Nat}, dim < A.length → Valid A i →
+    Valid (squeezeDims dim A) (i.eraseIdx dim)
+  | _, _, _, h, .nil => by simp at h
+  | 0, _, _, _, .cons hs hv => by simpa [squeezeDims] using hv
+  | dim + 1, _, _, h, .cons hs hv => by
+    rw [squeezeDims_succ, List.eraseIdx_cons_succ]
+    exact .cons hs (valid_eraseIdx dim (by simpa using h) hv)
+
+theorem list_sum_eq_range : ∀ (l : List ℝ), l.sum = ∑ k ∈ Finset.range l.length, (l[k]?).getD 0
+  | [] => by simp
+  | a :: l => by
+    rw [List.sum_cons, List.length_cons, Finset.sum_range_succ', list_sum_eq_range l]
+    simp [add_comm]
+
+/-- summing disjoint fibres `{τ j k | k < d}` of the positions is adjoint to replicating `g j` over fibre `j` -/
+theorem adjoint_of_fibres (m d n : ℕ) (τ : ℕ → ℕ → ℕ) (π κ : ℕ → ℕ)
+    (hτ : ∀ j k, j < m → k < d → τ j k < n) (hπ : ∀ i, i < n → π i < m) (hκ : ∀ i, i < n → κ i < d)
+    (hl : ∀ j k, j < m → k < d → π (τ j k) = j ∧ κ (τ j k) = k) (hr : ∀ i, i < n → τ (π i) (κ i) = i)
+    (x g : ℕ → ℝ) :
+    ∑ j ∈ Finset.range m, (∑ k ∈ Finset.range d, x (τ j k)) * g j = ∑ i ∈ Finset.range n, x i * g (π i) := by
+  have e1 : ∀ j ∈ Finset.range m, (∑ k ∈ Finset.range d, x (τ j k)) * g j
+      = ∑ k ∈ Finset.range d, x (τ j k) * g j := fun j _ => Finset.sum_mul _ _ _
+  rw [Finset.sum_congr rfl e1, ← Finset.sum_product' (Finset.range m) (Finset.range d) (fun j k => x (τ j k) * g j)]
+  apply Finset.sum_nbij' (fun p : ℕ × ℕ => τ p.1 p.2) (fun i => (π i, κ i))
+  · intro p hp
+    simp only [Finset.mem_product, Finset.mem_range] at hp ⊢
+    exact hτ p.1 p.2 hp.1 hp.2
+  · intro i hi
+    simp only [Finset.mem_product, Finset.mem_range] at hi ⊢
+    exact ⟨hπ i hi, hκ i hi⟩
+  · intro p hp
+    simp only [Finset.mem_product, Finset.mem_range] at hp
+    obtain ⟨h1, h2⟩ := hl p.1 p.2 hp.1 hp.2
+    exact Prod.ext h1 h2
+  · intro i hi
+    simp only [Finset.mem_range] at hi
+    exact hr i hi
+  · intro p hp
+    simp only [Finset.mem_product, Finset.mem_range] at hp
+    rw [(hl p.1 p.2 hp.1 hp.2).1]
+
+/-- forward SumAlong over ℝ, element form: position `j` of the result is the sum over `k` of the operand's elements
+    at the `j`-th output index with `k` inserted at `dim` -/
+theorem sumAlong_fwd (t y : Tensor ℝ) (hwf : t.WF) (dim : Nat) (hdim : dim < t.dims.length)
+    (h : t.reduceDimRaw dim Tensor.sum = some y) :
+    y.dims = squeezeDims dim t.dims ∧ y.data.length = prod (squeezeDims dim t.dims) ∧
+    ∀ j, j < prod (squeezeDims dim t.dims) →
+      y.data[j]? = some (∑ k ∈ Finset.range (t.dims.getD dim 0),
+        (t.at? (insLE dim k (idxOf (squeezeDims dim t.dims) j))).getD 0) := by
+  obtain ⟨data', e, hlen, hspec⟩ := reduceDim_spec t hwf dim hdim Tensor.sum
+  rw [e] at h
+  injection h with h
+  subst h
+  refine ⟨rfl, hlen, ?_⟩
+  intro j hj
+  obtain ⟨fib, hfl, hfib, hval⟩ := hspec j hj
+  rw [hval, (C05.sum_real _).1]
+  congr 1
+  show fib.sum = _
+  rw [list_sum_eq_range, hfl]
+  apply Finset.sum_congr rfl
+  intro k hk
+  rw [(hfib k (Finset.mem_range.mp hk)).1]
+  congr 2
+  -- the window index of step `j` with `k` at `dim`
+  have hrev : delLE (t.dims.length - 1 - dim) t.dims.reverse = (squeezeDims dim t.dims).reverse :=
+    (squeeze_rev dim t.dims hdim).symm
+  simp only [hrev]
+  have hu : (iterN (incr (squeezeDims dim t.dims).reverse) j (zerosLike (squeezeDims dim t.dims).reverse))
+      = (idxOf (squeezeDims dim t.dims) j).reverse := by simp [idxOf]
+  rw [hu]
+  have hl : (idxOf (squeezeDims dim t.dims) j).length = t.dims.length - 1 := by
+    simp only [idxOf, List.length_reverse]
+    rw [iter_incr_length, List.length_reverse, squeezeDims_length dim t.dims hdim]
+  rw [insLE_reverse _ dim _ 0 (by rw [hl]; omega), set_insLE dim k _ (by rw [hl]; omega)]
+
+/-- **SumAlong is adjoint to its rule** (over ℝ): for a direction `dx` of `x`'s shape and an upstream gradient `gy` of the
+    reduced shape, `⟨dx.SumAlong(dim), gy⟩ = ⟨dx, reducerBroadcasted(gy, x, dim)⟩`, i.e. `⟨f dx, gy⟩ = ⟨dx, rule gy⟩`:
+    replication along `dim` is the transpose of summation along `dim`, so the closure of `gradtrack.SumAlong` is the
+    vector-Jacobian product of the forward map. Every rank ≥ 1, every `dim`, all sizes. -/
+theorem adjoint_sumAlong (bm : BMode) (H : Heap ℝ) (x : Nat) (dim : Int) (dx y gy r : Tensor ℝ)
+    (wd : dx.WF) (hdx : dx.dims = (H.val x).dims) (wx : (H.val x).WF) (hf : vAlong .sum dx dim = .ok y) (wg : gy.WF)
+    (hd : gy.dims = y.dims) (hr : evalRule bm H gy (.sumAlongX x dim.toNat) = .ok r) : inner y gy = inner dx r := by
+  by_cases hv : validDimLt dim dx.dims = true
+  · have hlt : dim.toNat < dx.dims.length := by
+      simp only [validDimLt, Bool.and_eq_true, decide_eq_true_eq] at hv; omega
+    have hy : dx.reduceDimRaw dim.toNat Tensor.sum = some y := by
+      simp only [vAlong, vReduceDim, hv, if_true] at hf
+      cases h : dx.reduceDimRaw dim.toNat (Reducer.fn Reducer.sum) with
+      | none => rw [h] at hf; cases hf
+      | some v => rw [h] at hf; injection hf with hf; rw [← hf]; exact h
+    obtain ⟨hyd, hyl, hydata⟩ := sumAlong_fwd dx y wd dim.toNat hlt hy
+    generalize hB : squeezeDims dim.toNat dx.dims = B at hyd hyl hydata
+    have hgd : gy.dims = B := by rw [hd, hyd]
+    have hposB : ∀ d ∈ B, 0 < d := by rw [← hgd]; exact wg.2
+    obtain ⟨r', e', hrd, wr, hrget⟩ := rule_sumAlong bm H gy x dim.toNat wx (by rw [← hdx]; exact hlt) wg
+      (by rw [← hdx, hB]; exact hgd)
+    rw [hr] at e'
+    injection e' with e'
+    subst e'
+    rw [← hdx] at hrd hrget
+    have hBl : B.length = dx.dims.length - 1 := by rw [← hB]; exact squeezeDims_length _ _ hlt
+    have hil : ∀ j, (idxOf B j).length = B.length := fun j => (valid_idxOf hposB j).length_eq
+    -- index maps
+    let τ : ℕ → ℕ → ℕ := fun j k => posOf dx.dims (insLE dim.toNat k (idxOf B j))
+    let π : ℕ → ℕ := fun i => posOf B ((idxOf dx.dims i).eraseIdx dim.toNat)
+    let κ : ℕ → ℕ := fun i => (idxOf dx.dims i).getD dim.toNat 0
+    have hvτ : ∀ j k, k < dx.dims.getD dim.toNat 0 → Valid dx.dims (insLE dim.toNat k (idxOf B j)) := by
+      intro j k hk
+      exact valid_insLE_be dim.toNat k hlt (by rw [hB]; exact valid_idxOf hposB j) hk
+    have hvπ : ∀ i, Valid B ((idxOf dx.dims i).eraseIdx dim.toNat) := by
+      intro i
+      rw [← hB]; exact valid_eraseIdx dim.toNat hlt (valid_idxOf wd.2 i)
+    have hY : ∀ j, j < prod B → (y.data[j]?).getD 0
+        = ∑ k ∈ Finset.range (dx.dims.getD dim.toNat 0), (fun i => (dx.data[i]?).getD 0) (τ j k) := by
+      intro j hj
+      rw [hydata j hj, Option.getD_some]
+      apply Finset.sum_congr rfl
+      intro k hk
+      rw [at?_valid dx (hvτ j k (Finset.mem_range.mp hk))]
+      rfl
+    have hR : ∀ i, i < prod dx.dims → (r.data[i]?).getD 0 = (fun j => (gy.data[j]?).getD 0) (π i) := by
+      intro i hi
+      have h1 := at?_idxOf r wr (by rw [hrd]; exact hi)
+      rw [hrd] at h1
+      rw [← h1, hrget _ (valid_idxOf wd.2 i), at?_valid gy (by rw [hgd]; exact hvπ i), hgd]
+      rfl
+    unfold inner
+    rw [hyd]
+    have e1 : ∀ j ∈ Finset.range (prod B), (y.data[j]?).getD 0 * (gy.data[j]?).getD 0
+        = (∑ k ∈ Finset.range (dx.dims.getD dim.toNat 0), (fun i => (dx.data[i]?).getD 0) (τ j k))
+            * (fun j => (gy.data[j]?).getD 0) j := by
+      intro j hj; rw [hY j (Finset.mem_range.mp hj)]
+    have e2 : ∀ i ∈ Finset.range (prod dx.dims), (dx.data[i]?).getD 0 * (r.data[i]?).getD 0
+        = (fun i => (dx.data[i]?).getD 0) i * (fun j => (gy.data[j]?).getD 0) (π i) := by
+      intro i hi; rw [hR i (Finset.mem_range.mp hi)]
+    rw [Finset.sum_congr rfl e1, Finset.sum_congr rfl e2]
+    refine adjoint_of_fibres (prod B) (dx.dims.getD dim.toNat 0) (prod dx.dims) τ π κ ?_ ?_ ?_ ?_ ?_
+      (fun i => (dx.data[i]?).getD 0) (fun j => (gy.data[j]?).getD 0)
+    · intro j k _ hk; exact posOf_lt (hvτ j k hk)
+    · intro i _; exact posOf_lt (hvπ i)
+    · intro i _; exact valid_getD_lt dim.toNat (valid_idxOf wd.2 i) hlt
+    · intro j k hj hk
+      have hle : dim.toNat ≤ (idxOf B j).length := by rw [hil, hBl]; omega
+      constructor
+      · show posOf B ((idxOf dx.dims (posOf dx.dims (insLE dim.toNat k (idxOf B j)))).eraseIdx dim.toNat) = j
+        rw [idxOf_posOf wd.2 (hvτ j k hk), eraseIdx_insLE _ _ _ hle, posOf_idxOf hposB hj]
+      · show (idxOf dx.dims (posOf dx.dims (insLE dim.toNat k (idxOf B j)))).getD dim.toNat 0 = k
+        rw [idxOf_posOf wd.2 (hvτ j k hk), getD_insLE _ _ _ hle]
+    · intro i hi
+      show posOf dx.dims (insLE dim.toNat ((idxOf dx.dims i).getD dim.toNat 0)
+        (idxOf B (posOf B ((idxOf dx.dims i).eraseIdx dim.toNat)))) = i
+      have hli : dim.toNat < (idxOf dx.dims i).length := by
+        rw [(valid_idxOf wd.2 i).length_eq]; exact hlt
+      rw [idxOf_posOf hposB (hvπ i), insLE_eraseIdx _ _ hli, posOf_idxOf wd.2 hi]
+  · have hv' : validDimLt dim dx.dims = false := by simpa using hv
+    simp only [vAlong, vReduceDim, hv'] at hf
+    cases hf
+
+/-! ## Non-vacuity (kernel-checked on the `Scalar Int` instance)
+
+A heap with a [3,3] tensor (node 0) and a [2,2] tensor (node 1); every rule above evaluated on a concrete upstream
+gradient, with the result the theorems predict. -/
+
+def exHeap : Heap Int := #[⟨⟨[3, 3], [1, 2, 3, 4, 5, 6, 7, 8, 9]⟩, {}⟩, ⟨⟨[2, 2], [1, 2, 3, 4]⟩, {}⟩]
+
+/-- Reshape family: the data, under the operand's dims -/
+example : evalRule .sum exHeap ⟨[9], [1, 2, 3, 4, 5, 6, 7, 8, 9]⟩ (.reshapeX 0) = .ok ⟨[3, 3], [1, 2, 3, 4, 5, 6, 7, 8, 9]⟩ := by
+  decide
+/-- Transpose: last two coordinates swapped -/
+example : evalRule .sum exHeap ⟨[2, 3], [1, 2, 3, 4, 5, 6]⟩ .transposeX = .ok ⟨[3, 2], [1, 4, 2, 5, 3, 6]⟩ := by decide
+/-- SumAlong(1) of node 0: replication along dim 1; SumAlong(0): along dim 0 -/
+example : evalRule .sum exHeap ⟨[3], [10, 20, 30]⟩ (.sumAlongX 0 1) = .ok ⟨[3, 3], [10, 10, 10, 20, 20, 20, 30, 30, 30]⟩ ∧
+    evalRule .sum exHeap ⟨[3], [10, 20, 30]⟩ (.sumAlongX 0 0) = .ok ⟨[3, 3], [10, 20, 30, 10, 20, 30, 10, 20, 30]⟩ := by decide
+/-- Slice rows 1..3 (partial index) / columns 1..3 (`{0,0}` first): the block embedded into zeros -/
+example : evalRule .sum exHeap ⟨[2, 3], [10, 20, 30, 40, 50, 60]⟩ (.sliceX 0 [(1, 3)])
+      = .ok ⟨[3, 3], [0, 0, 0, 10, 20, 30, 40, 50, 60]⟩ ∧
+    evalRule .sum exHeap ⟨[3, 2], [10, 20, 30, 40, 50, 60]⟩ (.sliceX 0 [(0, 0), (1, 3)])
+      = .ok ⟨[3, 3], [0, 10, 20, 0, 30, 40, 0, 50, 60]⟩ := by decide
+/-- Patch of node 1 at rows 1..3 (columns: omitted, offset 0): towards the target the block is zeroed, towards the
+    source the block is selected -/
+example : evalRule .sum exHeap ⟨[3, 3], [1, 2, 3, 4, 5, 6, 7, 8, 9]⟩ (.patchX 1 [(1, 3)])
+      = .ok ⟨[3, 3], [1, 2, 3, 0, 0, 6, 0, 0, 9]⟩ ∧
+    evalRule .sum exHeap ⟨[3, 3], [1, 2, 3, 4, 5, 6, 7, 8, 9]⟩ (.patchP 1 [(1, 3)]) = .ok ⟨[2, 2], [4, 5, 7, 8]⟩ ∧
+    evalRule .sum exHeap ⟨[3, 3], [1, 2, 3, 4, 5, 6, 7, 8, 9]⟩ (.patchP 1 [(0, 0), (1, 3)]) = .ok ⟨[2, 2], [2, 3, 5, 6]⟩ := by
+  decide
+/-- Concat along dim 1, operand with base 1 and size 2: its block of the upstream gradient -/
+example : evalRule .sum exHeap ⟨[3, 3], [1, 2, 3, 4, 5, 6, 7, 8, 9]⟩ (.concatI (concatIndex 2 1 1 2))
+    = .ok ⟨[3, 2], [2, 3, 5, 6, 8, 9]⟩ := by decide
 
 end C02x
 end Qeep
